@@ -158,8 +158,11 @@ def rule_cwd_taint(ctx, r):
         root = any(isinstance(n, ast.Attribute) and n.attr == "anchor" for n in ast.walk(lp))
         nf = any(isinstance(n, ast.Raise) and "FileNotFoundError" in ast.unparse(n) for n in ast.walk(lp))
         feat = feat or (ascends and exists and root and nf)
-    r.check(feat, f"{fw.module.relpath}::{fw.qual}",
-            "the workflow file is searched upwards from the invoking directory to the root", "find_workflow no longer searches the parent directories up to the root", fw.where)
+    def structural_fw(_ctx, rr):
+        rr.check(feat, f"{fw.module.relpath}::{fw.qual}",
+                 "the workflow file is searched upwards from the invoking directory to the root", "find_workflow no longer searches the parent directories up to the root", fw.where)
+    from .evalhelpers import find_workflow_witness
+    ctx.structural_or_witness(r, structural_fw, lambda: find_workflow_witness(ctx), f"{fw.module.relpath}::{fw.qual}", both=True)
     ctxc = idx.cls(f"{CORE}:Context")
     for prop, want in (("config_dir", "os.path.join(self.working_dir, '.gwf')"), ("logs_dir", "os.path.join(self.config_dir, 'logs')")):
         m = idx.method(ctxc, prop)
